@@ -249,8 +249,17 @@ func (s *Sess) calleeEnv(ct *Contract, callee *ssa.Function, com *ssa.CallCommon
 		}
 		rest = rest[1:]
 	}
+	// parameter names come from the generic origin: instantiated signatures are canonicalised by
+	// type, so two generic functions instantiated at the same type share one signature object
+	nameSig := sig
+	if callee != nil && callee.Origin() != nil {
+		nameSig = callee.Origin().Signature
+	}
 	for i := 0; i < sig.Params().Len() && i < len(rest); i++ {
 		p := sig.Params().At(i)
+		if i < nameSig.Params().Len() {
+			p = nameSig.Params().At(i)
+		}
 		if n := p.Name(); n != "" && n != "_" {
 			c.vars[n] = rest[i]
 		}
